@@ -28,17 +28,21 @@ const (
 func (v Verdict) String() string { return [...]string{"unknown", "sat", "unsat"}[v] }
 
 type SolverKind struct {
-	Name string
-	Argv []string
-	Pre  string // sent after every (reset)
+	Name  string
+	Argv  []string
+	Pre   string // sent once at start (and after every (reset) in fresh mode)
+	Fresh bool   // (reset) before every query instead of push/pop
+	Z3    bool
 }
 
 var solverKinds = map[string]SolverKind{
-	"z3":     {"z3", []string{"z3", "-in"}, ""},
-	"z3-new": {"z3-new", []string{"z3-new", "-in"}, ""},
-	"cvc5":   {"cvc5", []string{"cvc5", "--incremental", "--produce-models", "--lang=smt2"}, "(set-logic ALL)\n"},
+	"z3":           {Name: "z3", Argv: []string{"z3", "-in"}, Z3: true},
+	"z3-fresh":     {Name: "z3-fresh", Argv: []string{"z3", "-in"}, Z3: true, Fresh: true},
+	"z3-new":       {Name: "z3-new", Argv: []string{"z3-new", "-in"}, Z3: true},
+	"z3-new-fresh": {Name: "z3-new-fresh", Argv: []string{"z3-new", "-in"}, Z3: true, Fresh: true},
+	"cvc5":         {Name: "cvc5", Argv: []string{"cvc5", "--incremental", "--produce-models", "--lang=smt2"}, Pre: "(set-logic ALL)\n"},
 	// integer encoding of bit-vector arithmetic: decides decimal kernels that bit-blasting cannot
-	"cvc5-int": {"cvc5-int", []string{"cvc5", "--incremental", "--produce-models", "--lang=smt2", "--solve-bv-as-int=sum"}, "(set-logic ALL)\n"},
+	"cvc5-int": {Name: "cvc5-int", Argv: []string{"cvc5", "--incremental", "--produce-models", "--lang=smt2", "--solve-bv-as-int=sum"}, Pre: "(set-logic ALL)\n"},
 }
 
 type SolverProc struct {
@@ -49,6 +53,9 @@ type SolverProc struct {
 	lines   chan string
 	dead    bool
 	queries int
+	started bool
+	sinceReset int
+	decl    map[string]bool
 }
 
 func startSolver(kind SolverKind) (*SolverProc, error) {
@@ -92,7 +99,7 @@ func (sp *SolverProc) kill() {
 // run sends script and collects output lines up to the sentinel.
 func (sp *SolverProc) run(script string, deadline time.Duration) ([]string, error) {
 	sp.queries++
-	_, err := io.WriteString(sp.in, script+"(echo \"<<done>>\")\n")
+	_, err := io.WriteString(sp.in, script)
 	if err != nil {
 		sp.kill()
 		return nil, err
@@ -267,7 +274,7 @@ func parseModel(lines []string, used []VarInfo) Assignment {
 	return m
 }
 
-func (c *SolverClient) runOn(name string, body string, used []VarInfo, wantModel bool) QueryResult {
+func (c *SolverClient) runOn(name string, q *Query, wantModel bool) QueryResult {
 	h := c.hub
 	p, err := c.proc(name)
 	if err != nil {
@@ -275,15 +282,55 @@ func (c *SolverClient) runOn(name string, body string, used []VarInfo, wantModel
 		return QueryResult{V: Unknown, Note: err.Error()}
 	}
 	var sb strings.Builder
-	sb.WriteString("(reset)\n")
-	sb.WriteString(p.kind.Pre)
-	if strings.HasPrefix(name, "z3") {
-		fmt.Fprintf(&sb, "(set-option :timeout %d)\n", h.TimeoutMS)
-	} else {
-		fmt.Fprintf(&sb, "(set-option :tlimit-per %d)\n", h.TimeoutMS)
+	topt := func() {
+		if p.kind.Z3 {
+			fmt.Fprintf(&sb, "(set-option :timeout %d)\n", h.TimeoutMS)
+		} else {
+			fmt.Fprintf(&sb, "(set-option :tlimit-per %d)\n", h.TimeoutMS)
+		}
 	}
-	sb.WriteString(body)
-	sb.WriteString("(check-sat)\n")
+	if p.kind.Fresh {
+		sb.WriteString("(reset)\n")
+		topt()
+		sb.WriteString(p.kind.Pre)
+		p.decl = map[string]bool{}
+	} else if !p.started {
+		topt()
+		sb.WriteString(p.kind.Pre)
+		p.decl = map[string]bool{}
+	} else if p.kind.Z3 && p.sinceReset >= 64 {
+		// z3's push/pop mode slows down steadily; a periodic (reset) keeps queries at ~1-2 ms
+		sb.WriteString("(reset)\n")
+		topt()
+		sb.WriteString(p.kind.Pre)
+		p.decl = map[string]bool{}
+		p.sinceReset = 0
+	}
+	p.sinceReset++
+	p.started = true
+	for _, d := range q.Decls {
+		if !p.decl[d.Name] {
+			p.decl[d.Name] = true
+			sb.WriteString(d.Text)
+		}
+	}
+	if !p.kind.Fresh {
+		sb.WriteString("(push 1)\n")
+	}
+	sb.WriteString(q.Body)
+	sb.WriteString("(check-sat)\n(echo \"<<cs>>\")\n")
+	if wantModel && len(q.Used) > 0 {
+		sb.WriteString("(get-value (")
+		for _, u := range q.Used {
+			sb.WriteString(smtVarName(u.Name))
+			sb.WriteByte(' ')
+		}
+		sb.WriteString("))\n")
+	}
+	if !p.kind.Fresh {
+		sb.WriteString("(pop 1)\n")
+	}
+	sb.WriteString("(echo \"<<done>>\")\n")
 	script := sb.String()
 	if h.LogDir != "" {
 		n := atomic.AddInt64(&h.logN, 1)
@@ -292,7 +339,7 @@ func (c *SolverClient) runOn(name string, body string, used []VarInfo, wantModel
 		}
 	}
 	t0 := time.Now()
-	lines, err := p.run(script, time.Duration(h.TimeoutMS)*time.Millisecond+10*time.Second)
+	lines, err := p.run(script, time.Duration(h.TimeoutMS)*time.Millisecond+15*time.Second)
 	dt := time.Since(t0).Nanoseconds()
 	atomic.AddInt64(&h.Stats.TimeNS, dt)
 	atomic.AddInt64(&h.Stats.Queries, 1)
@@ -306,14 +353,30 @@ func (c *SolverClient) runOn(name string, body string, used []VarInfo, wantModel
 		h.noteError(err.Error())
 		return QueryResult{V: Unknown, Note: err.Error()}
 	}
-	v := Unknown
+	// split at the <<cs>> marker
+	var csLines, mLines []string
+	seenCS := false
 	for _, l := range lines {
+		if strings.Trim(strings.TrimSpace(l), "\"") == "<<cs>>" {
+			seenCS = true
+			continue
+		}
+		if seenCS {
+			mLines = append(mLines, l)
+		} else {
+			csLines = append(csLines, l)
+		}
+	}
+	v := Unknown
+	for _, l := range csLines {
 		if strings.Contains(l, "(error") {
 			h.noteError(name + ": " + l)
+			// the process state may be inconsistent now: restart it
+			p.kill()
 			return QueryResult{V: Unknown, Note: l}
 		}
 	}
-	for _, l := range lines {
+	for _, l := range csLines {
 		switch strings.TrimSpace(l) {
 		case "sat":
 			v = Sat
@@ -322,28 +385,18 @@ func (c *SolverClient) runOn(name string, body string, used []VarInfo, wantModel
 		}
 	}
 	res := QueryResult{V: v}
-	if v == Sat && wantModel && len(used) > 0 {
-		var gv strings.Builder
-		gv.WriteString("(get-value (")
-		for _, u := range used {
-			gv.WriteString(smtVarName(u.Name))
-			gv.WriteByte(' ')
-		}
-		gv.WriteString("))\n")
-		ml, err := p.run(gv.String(), 20*time.Second)
-		if err != nil {
-			h.noteError(err.Error())
-			return QueryResult{V: Unknown, Note: err.Error()}
-		}
-		for _, l := range ml {
-			if strings.Contains(l, "(error") {
-				h.noteError(name + ": " + l)
-				return QueryResult{V: Unknown, Note: l}
-			}
-		}
-		res.Model = parseModel(ml, used)
-	} else if v == Sat {
+	if v == Sat {
 		res.Model = Assignment{}
+		if wantModel && len(q.Used) > 0 {
+			for _, l := range mLines {
+				if strings.Contains(l, "(error") {
+					h.noteError(name + ": " + l)
+					p.kill()
+					return QueryResult{V: Unknown, Note: l}
+				}
+			}
+			res.Model = parseModel(mLines, q.Used)
+		}
 	}
 	return res
 }
@@ -375,17 +428,17 @@ func (c *SolverClient) Check(asserts []*Term, wantModel bool, isAssertion bool) 
 			return QueryResult{V: ent.v, Model: ent.model}
 		}
 	}
-	body, used := c.f.BuildQuery(asserts)
-	res := c.runOn(h.Primary, body, used, true)
+	q := c.f.BuildQuery(asserts)
+	res := c.runOn(h.Primary, q, true)
 	if res.V == Unknown && h.Second != "" {
 		// fall back to the second back end for a verdict
-		r2 := c.runOn(h.Second, body, used, true)
+		r2 := c.runOn(h.Second, q, true)
 		if r2.V != Unknown {
 			res = r2
 		}
 	} else if isAssertion && h.Second != "" && res.V != Unknown {
 		atomic.AddInt64(&h.Stats.CrossChecks, 1)
-		r2 := c.runOn(h.Second, body, used, false)
+		r2 := c.runOn(h.Second, q, false)
 		if r2.V == res.V {
 			atomic.AddInt64(&h.Stats.CrossAgree, 1)
 		} else if r2.V != Unknown {
